@@ -209,7 +209,8 @@ def main():
         # 3. cases
         if replay:
             rp = json.load(open(replay))
-            cases = [mod.Case(c['line'], c.get('info', {})) for c in rp['cases']]
+            cases = [mod.Case(c['line'], c.get('info', {})) for c in rp.get('cases', [])]
+            ctx['replay'] = rp
         else:
             cases = mod.corpus(ctx) + mod.generate(ctx)
         lines = [c.line for c in cases]
@@ -252,9 +253,10 @@ def main():
                        'sanitizer': sanitizer_logs(tmp)[:4000],
                        'replay_cmd': 'python3 tools/check.py %s --replay %s' % (pid, path)}, open(path, 'w'), indent=1)
             violations.append((path, ''))
-        for ev in extra.get('violations', []):
-            path = os.path.join(VERIF, 'replays', rep_id + '_extra.json')
-            json.dump({'property': pid, 'kind': ev.get('kind', 'extra'), 'why': ev['why'], 'detail': ev.get('detail')}, open(path, 'w'), indent=1)
+        for k_ev, ev in enumerate(extra.get('violations', [])):
+            path = os.path.join(VERIF, 'replays', rep_id + '_extra%d.json' % k_ev)
+            json.dump({'property': pid, 'kind': ev.get('kind', 'extra'), 'why': ev['why'], 'detail': ev.get('detail'),
+                       'replay_cmd': 'python3 tools/check.py %s --replay %s' % (pid, path)}, open(path, 'w'), indent=1)
             violations.append((path, '' if ev.get('has_input') else ' no-failing-input-found'))
         # b) correspondence broken without a verdict failure: search around the disagreement
         if not violations and mism:
